@@ -324,8 +324,10 @@ func (m *Model) Expect(op *spb.AFTOperation) (Verdict, *Entry, string) {
 	switch op.GetOp() {
 	case spb.AFTOperation_DELETE:
 		if e.Key.Kind == KNHG || e.Key.Kind == KNH {
+			// (an entry whose content is not predicted may reference it - but only an entry of a kind that can:
+			// next-hops are referenced by groups, groups by prefix / label entries and, as backups, by groups)
 			for _, x := range m.Tab {
-				if x.Loose && x.Key.Kind != KNH {
+				if x.Loose && (x.Key.Kind == KNHG || (e.Key.Kind == KNHG && x.Key.Kind != KNH)) {
 					return VEither, e, "an entry of unpredicted content may reference it"
 				}
 			}
